@@ -1,6 +1,7 @@
 """Models of the builtins and stdlib names used by the functions under contract."""
 import z3
 
+from .types import PATH
 from .types import (INT, BOOL, STR, ANY, NONE, OptT, TupT, SeqT, SetT, DictT, ObjT,
                     sort_of, opt_none, opt_some, opt_is_none, opt_val, Ref)
 from .values import simp
@@ -103,9 +104,13 @@ def b_str(V, st, args, kwargs, node):
     if not args:
         return SV(STR, z3.StringVal(''))
     v = args[0]
+    if V.spec_mode:
+        v = V.nn(st, v, node)
     if isinstance(v, SV):
         if v.t == STR:
             return v
+        if v.t == PATH:
+            return SV(STR, v.z)
         if v.t == INT:
             f = V.uf('int.__str__', [z3.IntSort()], z3.StringSort())
             return SV(STR, f(v.z))
@@ -114,6 +119,14 @@ def b_str(V, st, args, kwargs, node):
             if '__str__' in fam.attrs:
                 return V.get_attr(st, v, '__str__', node)
     raise Unsupported('str() of %r' % (v,))
+
+
+@_b('Path')
+def b_Path(V, st, args, kwargs, node):
+    v = args[0]
+    if isinstance(v, SV) and v.t in (PATH, STR):
+        return SV(PATH, v.z)       # assumption: the string is a normalised path
+    raise Unsupported('Path() of %r' % (v,))
 
 
 @_b('repr')
@@ -158,7 +171,7 @@ def isinstance_one(V, st, v, clsname):
             nn = z3.Not(opt_is_none(t, v.z))
             v = strip_opt(v)
             t = v.t
-        prim = {STR: 'str', INT: 'int', BOOL: 'bool'}
+        prim = {STR: 'str', INT: 'int', BOOL: 'bool', PATH: 'Path'}
         if t in prim:
             return z3.And(nn, z3.BoolVal(prim[t] == clsname or (t == BOOL and clsname == 'int')))
         if isinstance(t, SeqT):
